@@ -595,6 +595,9 @@ func (c *VirtualTable) Insert(ctx context.Context, values map[int]interface{}) (
 		if i == c.KeyCol {
 			continue
 		}
+		if v == nil && c.notNullColumn(i) {
+			return 0, ErrS3DBConstraintNotNull
+		}
 		colName := c.ColumnNameByIndex[i]
 		new.ColumnValues[colName] = &v1proto.ColumnValue{Value: toSQLiteValue(v)}
 		dbg("SET %d %v=%v\n", i, key, v)
@@ -605,6 +608,15 @@ func (c *VirtualTable) Insert(ctx context.Context, values map[int]interface{}) (
 		return 0, fmt.Errorf("set: %w", err)
 	}
 	return 0, nil
+}
+
+// notNullColumn tells if the column that SQLite numbers i was declared NOT NULL. SQLite does
+// not enforce the declared constraints of a virtual table.
+func (c *VirtualTable) notNullColumn(i int) bool {
+	if c.usesRowID {
+		i-- // the hidden _rowid_ column is declared first
+	}
+	return c.schema != nil && i >= 0 && i < len(c.schema.Columns) && c.schema.Columns[i].NotNull
 }
 
 func (c *VirtualTable) Update(ctx context.Context, key interface{}, values map[int]interface{}) error {
@@ -630,6 +642,9 @@ func (c *VirtualTable) Update(ctx context.Context, key interface{}, values map[i
 	for i, v := range values {
 		if i == c.KeyCol {
 			continue
+		}
+		if v == nil && c.notNullColumn(i) {
+			return ErrS3DBConstraintNotNull
 		}
 		dbg("SET %d %v=%v\n", i, key, v)
 		colName := c.ColumnNameByIndex[i]
